@@ -149,7 +149,12 @@ func recurseValidationCode(att *expr.AttributeExpr, put expr.UserType, attCtx *A
 		if keyVal != "" {
 			keyVal = "\n" + keyVal
 		}
-		valueVal := validateAttribute(ctx, m.ElemType, put, "v", context+"[key]", true, view)
+		elemCtx := attCtx
+		if expr.IsPrimitive(m.ElemType.Type) {
+			// Map elements of primitive type are never pointers
+			elemCtx = ctx
+		}
+		valueVal := validateAttribute(elemCtx, m.ElemType, put, "v", context+"[key]", true, view)
 		if valueVal != "" {
 			valueVal = "\n" + valueVal
 		}
